@@ -2,7 +2,7 @@
 from ..ir import load_program, strip_casts, norm_callee
 from ..build import AnalysisBroken
 from ..util import backward_slice, const_int, resolve_ptr
-from ..effects import slot_call, fields_in_slice, success_points
+from ..effects import slot_call, fields_in_slice, success_points, Effects
 from ..errflow import ret_sources, failure_edges, consistent_reach
 from ..k7 import run_k7
 
@@ -439,11 +439,17 @@ def rule_list_order(chk, prog):
                     walkers.append((g, direction, h))
         if not walkers:
             continue
+        # a site is named by its unit and its position among the sites of that unit (not by the name of the static function it
+        # sits in: the name is the maintainer's to change)
+        ordinal = {}
+        for k_, (f, kind, i) in enumerate(sorted(sites, key=lambda t: (t[0].unit.src, t[2].line))):
+            ordinal[id(i)] = "%s#%d" % (f.unit.src, 1 + sum(1 for (f2, _k2, i2) in sites
+                                                            if f2.unit.src == f.unit.src and i2.line < i.line))
         for (f, kind, i) in sites:
             for (g, direction, h) in walkers:
                 n += 1
                 chk.analysed(f)
-                inst = "%s:%s/%s" % (f.name, fld_, g.name)
+                inst = "%s:%s/%s" % (ordinal[id(i)], fld_, g.name)
                 stable = (kind == "in front") == (direction == "back to front")
                 if stable:
                     chk.ok("K11-listorder", inst, i, "reader links new records %s, writer lays them out %s: the order survives a conversion"
@@ -451,7 +457,8 @@ def rule_list_order(chk, prog):
                 else:
                     chk.violation("K11-listorder", inst, i, "the reader links every new '%s' record %s of the list, the writer (%s) lays "
                                   "the list out %s: each tar -> image -> tar conversion reverses the order of the records, so "
-                                  "converting twice does not reproduce the first result" % (fld_, kind, g.name, direction))
+                                  "converting twice does not reproduce the first result" % (fld_, kind, g.name, direction),
+                                  fn="tar-reader-list-insert")
     if n == 0:
         chk.broke("no list of repeated records found that the tar reader fills and the tar writer walks")
     return n
@@ -514,6 +521,52 @@ def rule_unsupported(chk, prog):
         else:
             chk.violation("K5-unsupported", "%s:write_tar_header" % f.name, c, "the result of write_tar_header is never compared with "
                           "SQFS_ERROR_UNSUPPORTED: entries the tar format cannot express are either fatal or silently dropped")
+
+
+def rule_skip_clean(chk, prog):
+    """K11-skipclean: sqfs2tar skips an entry for which the header writer answers SQFS_ERROR_UNSUPPORTED and goes on with the
+    next one.  An answer that means "skipped" must not leave half an entry behind: in every function on the way from
+    write_tar_header to the stream, no path on which something was written (a call that may reach sqfs_ostream_t.append)
+    ends in `return SQFS_ERROR_UNSUPPORTED`.  Otherwise the extension records of the skipped entry (PAX xattrs, GNU long
+    name / long link) stay in the archive and every reader attaches them to the next member."""
+    eff = Effects(prog)
+    wr = eff.may_write_output()
+    n = 0
+    for f in prog.functions():
+        if f.decl or not f.unit.src.startswith("lib/tar/src/") or "/test/" in f.unit.src:
+            continue
+        f.build()
+        skips = []
+        for (v, b) in ret_sources(f):
+            v = strip_casts(v)
+            if v.is_const and v.is_int and v.sval == -6:
+                skips.append(b)
+        if not skips:
+            continue
+        n += 1
+        chk.analysed(f)
+        inst = "%s:unsupported" % f.name
+        bad = None
+        for c in f.calls():
+            if not eff.call_may(c, wr, direct=lambda i: slot_call(i) in (("struct.sqfs_ostream_t", "append"),)):
+                continue
+            seen, work = set(), list(c.bb.succs)
+            while work:
+                b = work.pop()
+                if b in seen:
+                    continue
+                seen.add(b)
+                work.extend(b.succs)
+            if any(b in seen for b in skips):
+                bad = c
+                break
+        if bad is None:
+            chk.ok("K11-skipclean", inst, f, "the answer 'unsupported' is given before anything of the entry was written")
+        else:
+            chk.violation("K11-skipclean", inst, bad, "after this call wrote to the archive a path still answers SQFS_ERROR_UNSUPPORTED, "
+                          "which sqfs2tar takes for 'entry skipped': the extension records written for the skipped entry (PAX "
+                          "xattrs, GNU long name) are read as belonging to the next member")
+    return n
 
 
 def rule_pax_len(chk, prog):
@@ -732,7 +785,7 @@ def run(chk):
         "well-formed output: header checksum computed last, data padded to records, sqfs2tar terminates and flushes the "
         "archive before it reports success, unsupported entries are recognised; names are funnelled through "
         "canonicalize_name (decided by C18); truncated input is an error in the archive layer (T1/T2); the PAX mask is "
-        "reset with the header (K9-mask).")
+        "reset with the header (K9-mask). K11-skipclean: the header writer answers 'unsupported' (which sqfs2tar takes for 'skipped') only on paths on which nothing was written yet.")
     chk.assumptions = ["field decoding of the dialects, sparse maps, link retargeting and idempotence are not decided"]
     from .c07 import validation_rule, mask_rule
     allp = load_program("all")
@@ -751,6 +804,8 @@ def run(chk):
     chk.floor("K12-twins", 3)
     chk.floor("K11-extorder", 1)
     rule_unsupported(chk, s2t)
+    rule_skip_clean(chk, s2t)
+    chk.floor("K11-skipclean", 1)
     rule_layer_order(chk, s2t)
     rule_pax_len(chk, s2t)
     from ..strtrunc import run_strtrunc
